@@ -47,7 +47,8 @@ def run_target(job):
             res['status'] = 'unbound'; res['detail'] = f'contract does not bind to the current source: {ex}'; return res
         ve = getattr(mod, 'VERIFIED_ELSEWHERE', {})
         res['callee_contracts'] = {k: ('target' if k in mod.TARGETS else ve.get(k, 'assumed')) for k in sorted(eng.used)}
-        discharge(obls, W.axioms, timeout_ms=timeout_ms, ground_sorts=getattr(W, 'ground_sorts', ()))
+        fast = bool(os.environ.get('VERIF_FAST'))          # development aid: no reseeding / second opinion / grounding on failures
+        discharge(obls, W.axioms, timeout_ms=timeout_ms, ground_sorts=() if fast else getattr(W, 'ground_sorts', ()), second=not fast, reseed=not fast)
         s = summary(obls)
         res.update(obligations=s['obligations'], proved=s['proved'], canaries=s['canaries'])
         for o in obls:
